@@ -236,6 +236,10 @@ namespace chaiscript {
     }
 
   public:
+#ifdef CHAISCRIPT_VERIF
+    /// verification hook: access to the dispatch engine (scope stacks, call depth, conversion saves)
+    chaiscript::detail::Dispatch_Engine &verif_engine() noexcept { return m_engine; }
+#endif
      
     /// \brief Virtual destructor for ChaiScript
     virtual ~ChaiScript_Basic() = default;
